@@ -543,3 +543,7 @@ impl PeerStatus {
         }
     }
 }
+
+#[cfg(all(greatest_ape_aquatic_verif, kani))]
+#[path = "/verif/harness/in_http_storage.rs"]
+pub mod verif_harness;
